@@ -3,14 +3,15 @@ import glob, json, os
 from . import lib
 
 
-def spec_h1server(ctx, thorough_reqs=3):
+def spec_h1server(ctx):
     """TLC: exhaustive check of H1Server (all scripts of abstract requests x both body modes x all Deliver interleavings)."""
-    d = ctx.sub("h1mc")
-    cfg = "H1ServerMC.cfg" if ctx.quick else "H1ServerMC_thorough.cfg"
-    return lib.spec_check(ctx, "H1ServerMC", cfg, workers=8 if ctx.quick else 16, timeout=1500,
-                          note="H1Server: scripts of <=%d abstract requests (Expect/close/malformed/oversized), buffered+streaming, "
-                               "every interleaving of Deliver(1..3) with server steps; invariants CursorSync NoOverread OncePerRequest "
-                               "ResponsesFIFO CleanReject StreamExact TracerAlternates NothingAfterClose FinalIndependent" % (2 if ctx.quick else 3))
+    note = ("H1Server: scripts of <=%d abstract requests (Expect/close/handler-close/malformed/oversized/cut short), buffered+streaming, tracer on/off, "
+            "failing writes, every interleaving of Deliver(1..3) with server steps; invariants CursorSync NoOverread OncePerRequest ResponsesFIFO "
+            "CleanReject StreamExact TracerAlternates PairsBracket NothingAfterClose FinalIndependent")
+    if ctx.quick:
+        return lib.spec_check(ctx, "H1ServerMC", "H1ServerMC.cfg", workers=8, timeout=1500, note=note % 2)
+    lib.spec_check(ctx, "H1ServerMC", "H1ServerMC_thorough.cfg", workers=16, timeout=2400, note=note % 2)
+    return lib.spec_check(ctx, "H1ServerMC", "H1ServerMC_thorough3.cfg", workers=16, timeout=2400, note=note % 3)
 
 
 def run_h1srv(ctx, drv, cases, outdir, modes="buffered,streaming", idle="inloop,poller", cuts="whole", extra=None, timeout=1500):
